@@ -5,7 +5,7 @@ import ast
 import struct
 
 from ..consteval import CallVal, ConstEval, EnumVal, StructVal, Sym, enum_members, is_const
-from ..core import (AnalysisError, ap, atoms, call_attr, calls, facts, find_calls, kw, norm, src,
+from ..core import (AnalysisError, match_as_if, ap, atoms, call_attr, calls, facts, find_calls, kw, norm, src,
                     stores, walk, parent, enclosing_stmt)
 from ..miniinterp import run_block
 from ..tmplmodel import parse_template
@@ -41,6 +41,14 @@ def component_index(repo, mod, fn_node, expr, spec_names):
     name bound by unpacking the pair."""
     if isinstance(expr, ast.Subscript) and isinstance(expr.slice, ast.Constant) and isinstance(expr.slice.value, int):
         return expr.slice.value
+    if isinstance(expr, ast.Call) and len(expr.args) == 1:
+        # operator.itemgetter(i)(v), directly or through a module-level alias
+        g = expr.func
+        if isinstance(g, ast.Name):
+            g = repo.module_assign(mod, g.id) or g
+        if isinstance(g, ast.Call) and (ap(g.func) or "").split(".")[-1] == "itemgetter" and len(g.args) == 1 and \
+                isinstance(g.args[0], ast.Constant) and isinstance(g.args[0].value, int):
+            return g.args[0].value
     if isinstance(expr, ast.Attribute) and isinstance(expr.value, ast.Name):
         # the object may have been re-bound to NamedTupleClass(*spec)
         for st in stores(fn_node, into_defs=False):
@@ -257,6 +265,23 @@ def r1(ctx):
                 defs = [d for d in walk(f.node) if isinstance(d, ast.FunctionDef) and d.name == expr.id]
                 if defs:
                     return all(any(ap(c.func) == f"{sl}.{method}" for c in calls(d)) for d in defs)
+                # a local bound (on every branch) to a callable expression
+                vals = [s_.value for s_ in stores(f.node, into_defs=False) if s_.path == expr.id and s_.kind == "assign"
+                        and s_.value is not None]
+                if vals:
+                    return all(uses(v, method) for v in vals)
+            # functools.partial(<module function>, .., struct_obj, ..): the struct reaches the function under the
+            # name of the parameter it is bound to
+            if isinstance(expr, ast.Call) and (ap(expr.func) or "").split(".")[-1] == "partial" and expr.args and \
+                    isinstance(expr.args[0], ast.Name):
+                cands = [g for g in repo.funcs.get(expr.args[0].id, []) if g.module is f.module and g.cls is None
+                         and g.parent_fn is None]
+                if len(cands) == 1:
+                    ps = [a.arg for a in cands[0].node.args.args]
+                    bound = {ps[i]: a for i, a in enumerate(expr.args[1:]) if i < len(ps)}
+                    bound.update({k.arg: k.value for k in expr.keywords if k.arg})
+                    names = [p_ for p_, a in bound.items() if ap(a) == sl]
+                    return any(ap(c.func) == f"{n_}.{method}" for n_ in names for c in calls(cands[0].node))
             if isinstance(expr, ast.Attribute):
                 return ap(expr) == f"{sl}.{method}"
             return any(ap(c.func) == f"{sl}.{method}" for c in calls(expr, into_defs=True))
@@ -864,6 +889,8 @@ def _taken_assign(ev, fn_node, env, target):
 
     def rec(stmts):
         for st in stmts:
+            if isinstance(st, ast.Match):
+                st = match_as_if(st) or st
             if isinstance(st, ast.If):
                 t = ev.ev(st.test, env)
                 if isinstance(t, (Sym, CallVal)):
@@ -880,6 +907,8 @@ def _taken_assign(ev, fn_node, env, target):
 def _taken_return(ev, stmts, env):
     """AST of the value returned on the path taken under env (sequential semantics, decidable tests only)."""
     for st in stmts:
+        if isinstance(st, ast.Match):
+            st = match_as_if(st) or st
         if isinstance(st, ast.If):
             t = ev.ev(st.test, env)
             if isinstance(t, (Sym, CallVal)):
